@@ -38,6 +38,19 @@ campaign() { # target name corpus-seed-dir|"" runs max_len
   NOTE="$NOTE $target/$name:${n}execs"
 }
 
+# C01 quantifies over both cargo feature sets: run the generated phases once more against a
+# harness built with coset's `std` feature (separate target dir); a violation there is reported.
+STD_RC=0
+if [ "$ID" = "C01" ]; then
+  if ( cd harness && CARGO_NET_OFFLINE=true cargo build --release --offline --features std --target-dir target-std ) > "$OUT/build-std.log" 2>&1; then
+    harness/target-std/release/harness run C01 quick > "$OUT/std-run.log" 2>&1; STD_RC=$?
+    grep -E "^VIOLATION|^  detail" "$OUT/std-run.log"; grep -E "^C01 " "$OUT/std-run.log" | sed 's/^/[with coset std feature] /'
+    NOTE="$NOTE std-feature-run:exit$STD_RC($(grep -o 'evaluations=[0-9]*' "$OUT/std-run.log" | head -1))"
+  else
+    echo "note: harness with coset/std did not build (see $OUT/build-std.log)" >&2
+  fi
+fi
+
 if [ "$FUZZ" = 1 ]; then
   case "$ID" in
     C01) campaign bytes seeded corpus/bytes-seed 150000 4096; campaign bytes empty "" 100000 65536 ;;
@@ -49,10 +62,11 @@ if [ "$FUZZ" = 1 ]; then
     C15|C16|C17) campaign tape empty "" 300000 256 ;;
     *) campaign tape empty "" 300000 "$MAXT" ;;
   esac
-  export VERIF_FUZZ_CONFIRM="${CONFIRM#,}" VERIF_FUZZ_EXECS="$EXECS" VERIF_FUZZ_NOTE="$NOTE"
 fi
+export VERIF_FUZZ_CONFIRM="${CONFIRM#,}" VERIF_FUZZ_EXECS="$EXECS" VERIF_FUZZ_NOTE="$NOTE"
 "$HARNESS" run "$ID" thorough
 rc=$?
 # keep artefacts, drop the (large) working corpora
 rm -rf "$OUT"/*/corpus "$OUT"/*/logs
+if [ "$rc" = 0 ] && [ "$STD_RC" = 1 ]; then rc=1; fi
 exit $rc
